@@ -149,6 +149,10 @@ def _sum_of_squares(t):
 def _mono_square(m):
     if len(m) == 1 and m[0][1] == 2:
         return True
+    # the square of a product of parts none of which scales the others DOWN (every atom with a positive even power): at least as
+    # far out of range as the plain square (a part divided by the largest modulus first carries that modulus with a negative power)
+    if len(m) >= 2 and all(pw_ > 0 and pw_ % 2 == 0 for _a, pw_ in m):
+        return True
     # dot(x, x) / matmul(x, x): the sum of the squares of a vector's entries
     if len(m) == 1 and m[0][1] == 1 and isinstance(m[0][0], T.App) and m[0][0].op in ("dot", "matmul") and len(m[0][0].args) == 2 and m[0][0].args[0] == m[0][0].args[1]:
         return True
